@@ -252,3 +252,15 @@ def c10_7(cx):
         ve = cx.one_call(c, r"Configuration::values_equal$", "values_equal")
         a = cx.args(ve)
         cx.check(a[0] == "$2" and re.search(r"^\$1\.0", a[1]) is not None, "the comparison is between the old memo's value and the new value", ve, {"args": a}, key="cmp-args")
+
+
+@ob("C11.6", ["C11", "C12"], "a fixpoint query stores flattened edges, not its call tree; if it silently completed with accumulated inputs the accumulated values of its callees would be unreachable from its memo (lost on reuse)", kind="ONLYIF (assert dominates the return)", configs=("default", "persistence"))
+def c11_6(cx):
+    """complete_cycle_query returns only if completed_query.revisions.accumulated_inputs.load().is_empty() (otherwise it panics): fixpoint iteration refuses accumulated inputs instead of dropping them."""
+    c = cx.fn(r"^function::execute::complete_cycle_query$")
+    emp = CallIs(r"InputAccumulatedValues::is_empty$", True, [r"AtomicInputAccumulatedValues::load\(.*\.revisions\.accumulated_inputs\)$"], desc="accumulated_inputs.load().is_empty()")
+    n = 0
+    for r in c.return_blocks():
+        n += 1
+        cx.only_if(c, Site(c, r, len(c.blocks[r]["stmts"])), emp, "complete_cycle_query completes only without accumulated inputs")
+    cx.require(n >= 1, "return of complete_cycle_query")
